@@ -24,6 +24,7 @@ def mechanisms(run: Run, rec: dict):
     if rec.get('spec', {}).get('chips'):
         c('hands_chip_type_' + rec['spec']['chips'])
     prev_bets = None
+    seen_board = False
     for ev in evs:
         if ev.get('op') and ev['op'] != 'none':
             if ev['out'] == 'ok':
@@ -60,6 +61,10 @@ def mechanisms(run: Run, rec: dict):
                     c('push_side_pot')
             if k == 'RS' and o['amt'] >= 2:
                 c('runout_2plus_requested')
+            if k == 'BD':
+                seen_board = True
+            if k == 'RS' and seen_board:
+                c('runout_choice_after_a_board_street')
             if k == 'SD' and o['cards']:
                 c('discard')
             if k == 'SM' and not o['cards']:
